@@ -225,11 +225,13 @@ func (p *wkbParser) parseLineString(ctype CoordinatesType) (LineString, error) {
 	if err != nil {
 		return LineString{}, err
 	}
-	floats := make([]float64, int(n)*ctype.Dimension())
-
-	if len(p.body) < 8*len(floats) {
+	// The count comes from untrusted input, so check it against the number
+	// of bytes that are actually present before allocating anything.
+	numFloats := uint64(n) * uint64(ctype.Dimension())
+	if uint64(len(p.body)) < 8*numFloats {
 		return LineString{}, wkbSyntaxError{"unexpected EOF"}
 	}
+	floats := make([]float64, numFloats)
 
 	var seqData []byte
 	if p.no {
@@ -274,12 +276,15 @@ func (p *wkbParser) parsePolygon(ctype CoordinatesType) (Polygon, error) {
 	if n == 0 {
 		return Polygon{}.ForceCoordinatesType(ctype), nil
 	}
-	rings := make([]LineString, n)
-	for i := range rings {
-		rings[i], err = p.parseLineString(ctype)
+	// The count is untrusted, so the slice is grown as elements are
+	// successfully parsed rather than being preallocated.
+	var rings []LineString
+	for i := uint32(0); i < n; i++ {
+		ring, err := p.parseLineString(ctype)
 		if err != nil {
 			return Polygon{}, err
 		}
+		rings = append(rings, ring)
 	}
 	return NewPolygon(rings), nil
 }
@@ -292,7 +297,7 @@ func (p *wkbParser) parseMultiPoint(ctype CoordinatesType) (MultiPoint, error) {
 	if n == 0 {
 		return MultiPoint{}.ForceCoordinatesType(ctype), nil
 	}
-	pts := make([]Point, n)
+	var pts []Point // Grown as parsed (the count is untrusted).
 	for i := uint32(0); i < n; i++ {
 		geom, err := p.inner()
 		if err != nil {
@@ -301,7 +306,7 @@ func (p *wkbParser) parseMultiPoint(ctype CoordinatesType) (MultiPoint, error) {
 		if !geom.IsPoint() {
 			return MultiPoint{}, wkbSyntaxError{"MultiPoint contains non-Point element"}
 		}
-		pts[i] = geom.MustAsPoint()
+		pts = append(pts, geom.MustAsPoint())
 	}
 	return NewMultiPoint(pts), nil
 }
@@ -314,7 +319,7 @@ func (p *wkbParser) parseMultiLineString(ctype CoordinatesType) (MultiLineString
 	if n == 0 {
 		return MultiLineString{}.ForceCoordinatesType(ctype), nil
 	}
-	lss := make([]LineString, n)
+	var lss []LineString // Grown as parsed (the count is untrusted).
 	for i := uint32(0); i < n; i++ {
 		geom, err := p.inner()
 		if err != nil {
@@ -323,7 +328,7 @@ func (p *wkbParser) parseMultiLineString(ctype CoordinatesType) (MultiLineString
 		if !geom.IsLineString() {
 			return MultiLineString{}, wkbSyntaxError{"MultiLineString contains non-LineString element"}
 		}
-		lss[i] = geom.MustAsLineString()
+		lss = append(lss, geom.MustAsLineString())
 	}
 	return NewMultiLineString(lss), nil
 }
@@ -336,7 +341,7 @@ func (p *wkbParser) parseMultiPolygon(ctype CoordinatesType) (MultiPolygon, erro
 	if n == 0 {
 		return MultiPolygon{}.ForceCoordinatesType(ctype), nil
 	}
-	polys := make([]Polygon, n)
+	var polys []Polygon // Grown as parsed (the count is untrusted).
 	for i := uint32(0); i < n; i++ {
 		geom, err := p.inner()
 		if err != nil {
@@ -345,7 +350,7 @@ func (p *wkbParser) parseMultiPolygon(ctype CoordinatesType) (MultiPolygon, erro
 		if !geom.IsPolygon() {
 			return MultiPolygon{}, wkbSyntaxError{"MultiPolygon contains non-Polygon element"}
 		}
-		polys[i] = geom.MustAsPolygon()
+		polys = append(polys, geom.MustAsPolygon())
 	}
 	return NewMultiPolygon(polys), nil
 }
@@ -358,19 +363,20 @@ func (p *wkbParser) parseGeometryCollection(ctype CoordinatesType) (GeometryColl
 	if n == 0 {
 		return GeometryCollection{}.ForceCoordinatesType(ctype), nil
 	}
-	geoms := make([]Geometry, n)
+	var geoms []Geometry // Grown as parsed (the count is untrusted).
 	for i := uint32(0); i < n; i++ {
-		geoms[i], err = p.inner()
+		g, err := p.inner()
 		if err != nil {
 			return GeometryCollection{}, err
 		}
-		if geoms[i].CoordinatesType() != ctype {
+		if g.CoordinatesType() != ctype {
 			err := mismatchedGeometryCollectionDimsError{
 				ctype,
-				geoms[i].CoordinatesType(),
+				g.CoordinatesType(),
 			}
 			return GeometryCollection{}, err
 		}
+		geoms = append(geoms, g)
 	}
 	return NewGeometryCollection(geoms), nil
 }
